@@ -11,6 +11,7 @@ package c12
 import (
 	"encoding/json"
 	"fmt"
+	"io"
 	"math"
 	"net/http"
 	"net/http/httptest"
@@ -41,6 +42,7 @@ import (
 	_ "github.com/google/martian/v3/status"
 
 	"verifharness/internal/kit"
+	"verifharness/internal/netkit"
 	tr "verifharness/props/treeref"
 )
 
@@ -834,6 +836,14 @@ type History struct {
 	HTTP bool `json:"http,omitempty"`
 }
 
+// short abbreviates long documents in failure messages.
+func short(b []byte) string {
+	if len(b) <= 1200 {
+		return string(b)
+	}
+	return fmt.Sprintf("%s ... [%d bytes] ... %s", b[:800], len(b), b[len(b)-300:])
+}
+
 // hideLen hides the length of the reader so that net/http sends it chunked.
 type hideLen struct{ io.Reader }
 
@@ -907,13 +917,17 @@ func runHistory(h History) kit.Verdict {
 			}
 			if st.Post.mustReject() {
 				if rw.Code < 400 || rw.Code > 499 {
-					v.Addf("C12/reconfigure/"+st.Post.faultName()+"/faulty-post-not-refused", "step %d: POST of a configuration with fault %q answered %d: %s", i, st.Post.faultName(), rw.Code, st.Post.text())
+					v.Addf("C12/reconfigure/"+st.Post.faultName()+"/faulty-post-not-refused", "step %d: POST of a configuration with fault %q answered %d: %s", i, st.Post.faultName(), rw.Code, short(st.Post.text()))
 					// what is active now is undefined: stop
 					return v
 				}
 			} else {
 				if rw.Code < 200 || rw.Code > 299 {
-					v.Addf("C12/reconfigure/valid-post/refused", "step %d: POST of a valid configuration answered %d %q: %s", i, rw.Code, rw.Body.String(), st.Post.text())
+					shape := "valid-post"
+					if h.HTTP {
+						shape = "valid-post-over-http"
+					}
+					v.Addf("C12/reconfigure/"+shape+"/refused", "step %d: POST of a valid configuration (%d bytes, chunked=%v) answered %d %q: %s", i, len(st.Post.text()), st.Post.Chunked, rw.Code, rw.Body, short(st.Post.text()))
 					return v
 				}
 				active, activeText = st.Post.tree(), st.Post.text()
@@ -924,7 +938,7 @@ func runHistory(h History) kit.Verdict {
 				where = "reconfigure/after-rejected-post"
 			}
 			for _, f := range applyPair(where, active, m, m, *st.Eval) {
-				v.Addf(f.Sig, "step %d: %s\nactive configuration: %s", i, f.Msg, activeText)
+				v.Addf(f.Sig, "step %d: %s\nactive configuration: %s", i, short([]byte(f.Msg)), short(activeText))
 			}
 			if len(v) > 0 {
 				return v
@@ -975,53 +989,63 @@ func histStats(h History) (posts, rejected, evalAfterReject, replaced int) {
 	return
 }
 
+// genHistory draws a reconfiguration history; wire = delivered over HTTP,
+// with documents padded to sizes around and far beyond a server's 4 KB read buffer.
+func genHistory(t *rapid.T, wire bool) History {
+	h := History{HTTP: wire}
+	n := 2 + uni(t, "steps", kit.N(11, 19))
+	// Register calls are drawn only once a document naming an unknown
+	// modifier has been rejected in this same history: a call that hangs is
+	// then always preceded, in its own history, by what can make it hang,
+	// and the saved case reproduces in a fresh process (the registry is
+	// process-wide and earlier cases also parse unknown names).
+	unknown := false
+	post := func(faulty bool) *Case {
+		g := &gen{t: t, maxDepth: 1 + uni(t, "maxdepth", 3), maxWidth: 3}
+		c := Case{Tree: g.node(1), Cut: -1}
+		if faulty {
+			injectFault(t, &c)
+		}
+		if wire {
+			c.Chunked = uni(t, "chunked", 3) == 0
+			if uni(t, "padded", 4) > 0 {
+				c.Pad = []int{2500, 3600, 3900, 4096, 4300, 6000, 8192, 16384, 40000, 65536}[uni(t, "pad", 10)] + uni(t, "padoff", 64)
+			}
+		}
+		h.Steps = append(h.Steps, Step{Post: &c})
+		p := genPair(t) // every POST is followed by at least one evaluation
+		h.Steps = append(h.Steps, Step{Eval: &p})
+		return &c
+	}
+	for i := 0; i < n; i++ {
+		k := uni(t, "post", 9)
+		if k == 3 && unknown {
+			h.Steps = append(h.Steps, Step{Reg: true})
+			continue
+		}
+		if k < 3 {
+			c := post(uni(t, "faulty", 2) == 0)
+			if c.mustReject() && c.Cut < 0 && c.Tail == "" && c.faultName() == tr.FaultUnknownName {
+				unknown = true
+				if uni(t, "thenregister", 3) > 0 {
+					// ... the program registers a node type, then a valid document arrives
+					h.Steps = append(h.Steps, Step{Reg: true})
+					post(false)
+				}
+			}
+		} else {
+			p := genPair(t)
+			h.Steps = append(h.Steps, Step{Eval: &p})
+		}
+	}
+	return h
+}
+
 var propHistory = &kit.Prop[History]{
 	ID: "C12", Name: "reconfigure",
 	Rule: "histories of 2..12|20 steps through martianhttp.Modifier.ServeHTTP: POST of a valid or faulty configuration tree (same generator as the tree check, depth <= 3) interleaved with evaluations of message pairs and - once a document naming an unknown modifier has been rejected in the history - with parse.Register calls of the embedding program (a harness-defined node type), usually followed by a valid document; every POST and Register call must return within T (re-validated at 3T); a faulty POST must be refused (4xx) and leave the previous tree fully in force, a valid one (2xx) must replace it completely; non-trivial = an evaluation right after a rejected POST while a configuration is active, or a second accepted configuration",
-	Gen: func(t *rapid.T) History {
-		var h History
-		n := 2 + uni(t, "steps", kit.N(11, 19))
-		// Register calls are drawn only once a document naming an unknown
-		// modifier has been rejected in this same history: a call that hangs is
-		// then always preceded, in its own history, by what can make it hang,
-		// and the saved case reproduces in a fresh process (the registry is
-		// process-wide and earlier cases also parse unknown names).
-		unknown := false
-		post := func(faulty bool) *Case {
-			g := &gen{t: t, maxDepth: 1 + uni(t, "maxdepth", 3), maxWidth: 3}
-			c := Case{Tree: g.node(1), Cut: -1}
-			if faulty {
-				injectFault(t, &c)
-			}
-			h.Steps = append(h.Steps, Step{Post: &c})
-			p := genPair(t) // every POST is followed by at least one evaluation
-			h.Steps = append(h.Steps, Step{Eval: &p})
-			return &c
-		}
-		for i := 0; i < n; i++ {
-			k := uni(t, "post", 9)
-			if k == 3 && unknown {
-				h.Steps = append(h.Steps, Step{Reg: true})
-				continue
-			}
-			if k < 3 {
-				c := post(uni(t, "faulty", 2) == 0)
-				if c.mustReject() && c.Cut < 0 && c.Tail == "" && c.faultName() == tr.FaultUnknownName {
-					unknown = true
-					if uni(t, "thenregister", 3) > 0 {
-						// ... the program registers a node type, then a valid document arrives
-						h.Steps = append(h.Steps, Step{Reg: true})
-						post(false)
-					}
-				}
-			} else {
-				p := genPair(t)
-				h.Steps = append(h.Steps, Step{Eval: &p})
-			}
-		}
-		return h
-	},
-	Run: runHistory,
+	Gen:  func(t *rapid.T) History { return genHistory(t, false) },
+	Run:  runHistory,
 	NonTrivial: func(h History) bool {
 		_, _, ear, rep := histStats(h)
 		return ear > 0 || rep > 0
@@ -1051,6 +1075,61 @@ var propHistory = &kit.Prop[History]{
 }
 
 func TestReconfigure(t *testing.T) { propHistory.Check(t, kit.N(3000, 16000)) }
+
+func bigPosts(h History) (big, bigValid, bigChunked int) {
+	for _, st := range h.Steps {
+		if st.Post != nil && len(st.Post.text()) > 4096 {
+			big++
+			if !st.Post.mustReject() {
+				bigValid++
+			}
+			if st.Post.Chunked {
+				bigChunked++
+			}
+		}
+	}
+	return
+}
+
+var propHTTPHistory = &kit.Prop[History]{
+	ID: "C12", Name: "reconfigure-http", Journal: true,
+	Rule: "the same reconfiguration histories with every document POSTed over a real HTTP connection (net/http client, keep-alive) to a server whose handler is the martianhttp.Modifier; 3 documents in 4 are padded (inert nodes + one long header value) to 2.5..64 KB, 1 in 3 is sent chunked, the rest with Content-Length; evaluations in between as before; non-trivial = a valid document larger than 4096 bytes is posted",
+	Gen:  func(t *rapid.T) History { return genHistory(t, true) },
+	Run:  runHistory,
+	NonTrivial: func(h History) bool {
+		_, bv, _ := bigPosts(h)
+		return bv > 0
+	},
+	Classes: func(h History) []string {
+		var cl []string
+		b, bv, bc := bigPosts(h)
+		if b > 0 {
+			cl = append(cl, "document>4096")
+		}
+		if bv > 0 {
+			cl = append(cl, "valid-document>4096")
+		}
+		if bc > 0 {
+			cl = append(cl, "chunked-document>4096")
+		}
+		_, _, ear, rep := histStats(h)
+		if ear > 0 {
+			cl = append(cl, "eval-after-rejected-post")
+		}
+		if rep > 0 {
+			cl = append(cl, "config-replaced")
+		}
+		return cl
+	},
+	Gates: map[string]float64{"valid-document>4096": 0.4, "chunked-document>4096": 0.2, "config-replaced": 0.2},
+}
+
+func TestReconfigureHTTP(t *testing.T) {
+	if registryStuck.Load() {
+		t.Skip("a configuration call of an earlier check never returned; the process-wide parse registry is stuck")
+	}
+	propHTTPHistory.Check(t, kit.N(150, 600))
+}
 
 // ---------------------------------------------------------------- concurrent reconfiguration
 
@@ -1145,4 +1224,6 @@ func TestReconfigureConcurrent(t *testing.T) {
 	propRace.Check(t, kit.N(40, 120))
 }
 
-func TestReplay(t *testing.T) { kit.Replay(t, propTree, propEnum, propHistory, propRace) }
+func TestReplay(t *testing.T) {
+	kit.Replay(t, propTree, propEnum, propHistory, propHTTPHistory, propRace)
+}
